@@ -194,9 +194,9 @@ TABLE['C06'] = dict(
     ])
 
 TABLE['C07'] = dict(
-    imports=[A + 'Glue', A + 'DemographyThm', A + 'EndToEnd2'],
+    imports=[A + 'Glue', A + 'DemographyThm', A + 'EndToEnd2', A + 'PdfVec'],
     summary='Proved for every finite sequence of times, any order, any duplicates: scatter with the inverse sorting permutation '
-            'after a sorted sweep returns the i-th value for the i-th time; instantiated for _accumulate, cdf and get_epochs. '
+            'after a sorted sweep returns the i-th value for the i-th time; instantiated for _accumulate, cdf, pdf (two vector cdf calls, PdfVec) and get_epochs. '
             'The pinned gather variant is refuted on [2, 1/2, 1] and characterised (correct iff the sort is an involution).',
     theorems=[
         ('scatter_argsort', 'PG.scatter_argsort', 'scatterBack ts (map f (sort ts)) = map f ts'),
@@ -209,6 +209,12 @@ TABLE['C07'] = dict(
         ('pinned_counterexample', 'PG.gatherPinned_counterexample', 'indexing with argsort instead of its inverse is wrong on [2, 1/2, 1]'),
         ('pinned_correct_only_for_involutions', 'PG.gatherPinned_of_involutive', 'it is right when the sorting permutation is an involution (why reversed / sorted inputs hid the defect)'),
         ('end_to_end_cdf_vector', 'PG.EndToEnd.cdf_call_entry_eq_labelled', 'entry i of a vector cdf call is the labelled cdf at times[i], whatever the other times'),
+        ('pdf_pointwise', 'PG.code_pdf_pointwise', 'pdf(times, dx) = two vector cdf calls at max(t - dx/2, 0) and that + dx: entry i is the difference quotient of the direct cdf at times[i]'),
+        ('pdf_entry_eq_single', 'PG.code_pdf_entry_eq_single', 'any entry of a vector pdf call equals the one-element call for that time'),
+        ('pdf_perm', 'PG.code_pdf_perm', 'permuting the supplied times permutes the pdf values the same way'),
+        ('pdf_points_nonneg', 'PG.pdfX1_nonneg', 'the evaluation points of pdf are never negative'),
+        ('pdf_window_centred', 'PG.pdf_window_centred', 'for t >= dx/2 the window is [t - dx/2, t + dx/2]'),
+        ('pdf_window_at_zero', 'PG.pdf_window_at_zero', 'for t <= dx/2 the window is [0, dx]'),
     ])
 
 TABLE['C08'] = dict(
